@@ -369,149 +369,6 @@ Definition expected_cmd_SetInformationRequest : cmd_desc := {|
   ];
   cd_opaque := ["Unmarshal: copy(c.Reserved[:], rawParametersContent[offset:offset+10])"]
 |}.
-Definition expected_cmd_TransactionRequest : cmd_desc := {|
-  cd_name := "TransactionRequest";
-  cd_code := 37;
-  cd_andx := false;
-  cd_request := true;
-  cd_params_first := true;
-  cd_empty := EmptyBoth;
-  cd_decl := [("TotalParameterCount", TInt 2); ("TotalDataCount", TInt 2); ("MaxParameterCount", TInt 2); ("MaxDataCount", TInt 2); ("MaxSetupCount", TInt 1); ("Reserved1", TInt 1); ("Flags", TInt 2); ("Timeout", TInt 4); ("Reserved2", TInt 2); ("ParameterCount", TInt 2); ("ParameterOffset", TInt 2); ("DataCount", TInt 2); ("DataOffset", TInt 2); ("SetupCount", TInt 1); ("Reserved3", TInt 1); ("Setup", TArray (TInt 2)); ("Name", TNamed "SMB_STRING"); ("Pad1", TBytes); ("Trans_Parameters", TBytes); ("Pad2", TBytes); ("Trans_Data", TBytes)];
-  cd_marshal := [
-    MNested SD "Name" (TNamed "SMB_STRING") "";
-    MBytes SD "Pad1";
-    MBytes SD "Trans_Parameters";
-    MBytes SD "Pad2";
-    MBytes SD "Trans_Data";
-    MInt SP "TotalParameterCount" 2 BE;
-    MInt SP "TotalDataCount" 2 BE;
-    MInt SP "MaxParameterCount" 2 BE;
-    MInt SP "MaxDataCount" 2 BE;
-    MInt SP "MaxSetupCount" 1 LE;
-    MInt SP "Reserved1" 1 LE;
-    MInt SP "Flags" 2 BE;
-    MInt SP "Timeout" 4 BE;
-    MInt SP "Reserved2" 2 BE;
-    MInt SP "ParameterCount" 2 BE;
-    MInt SP "ParameterOffset" 2 BE;
-    MInt SP "DataCount" 2 BE;
-    MInt SP "DataOffset" 2 BE;
-    MInt SP "SetupCount" 1 LE;
-    MInt SP "Reserved3" 1 LE;
-    MIntArray SP "Setup" 2 BE
-  ];
-  cd_unmarshal := [
-    UReset SP;
-    UGuard SP (EConst 2);
-    UInt SP "TotalParameterCount" 2 BE (EConst 2);
-    UAdv (EConst 2);
-    UGuard SP (EConst 2);
-    UInt SP "TotalDataCount" 2 BE (EConst 2);
-    UAdv (EConst 2);
-    UGuard SP (EConst 2);
-    UInt SP "MaxParameterCount" 2 BE (EConst 2);
-    UAdv (EConst 2);
-    UGuard SP (EConst 2);
-    UInt SP "MaxDataCount" 2 BE (EConst 2);
-    UAdv (EConst 2);
-    UGuard SP (EConst 1);
-    UInt SP "MaxSetupCount" 1 LE (EConst 1);
-    UAdv (EConst 1);
-    UGuard SP (EConst 1);
-    UInt SP "Reserved1" 1 LE (EConst 1);
-    UAdv (EConst 1);
-    UGuard SP (EConst 2);
-    UInt SP "Flags" 2 BE (EConst 2);
-    UAdv (EConst 2);
-    UGuard SP (EConst 4);
-    UInt SP "Timeout" 4 BE (EConst 4);
-    UAdv (EConst 4);
-    UGuard SP (EConst 2);
-    UInt SP "Reserved2" 2 BE (EConst 2);
-    UAdv (EConst 2);
-    UGuard SP (EConst 2);
-    UInt SP "ParameterCount" 2 BE (EConst 2);
-    UAdv (EConst 2);
-    UGuard SP (EConst 2);
-    UInt SP "ParameterOffset" 2 BE (EConst 2);
-    UAdv (EConst 2);
-    UGuard SP (EConst 2);
-    UInt SP "DataCount" 2 BE (EConst 2);
-    UAdv (EConst 2);
-    UGuard SP (EConst 2);
-    UInt SP "DataOffset" 2 BE (EConst 2);
-    UAdv (EConst 2);
-    UGuard SP (EConst 1);
-    UInt SP "SetupCount" 1 LE (EConst 1);
-    UAdv (EConst 1);
-    UGuard SP (EConst 1);
-    UInt SP "Reserved3" 1 LE (EConst 1);
-    UAdv (EConst 1);
-    UGuard SP (EMul (EConst 2) (EField "SetupCount"));
-    UOpaque "c.Setup = make([]types.USHORT, c.SetupCount)";
-    UOpaque "for i := 0; i < int(c.SetupCount); i++ { c.Setup[i] = types.USHORT(binary.BigEndian.Uint16(rawParametersContent[offset : offset+2])) offset += 2 }";
-    UReset SD;
-    UNested SD "Name" (TNamed "SMB_STRING") ERest;
-    UAdv ERead;
-    UGuard SD (EField "ParameterOffset");
-    UBytes SD "Pad1" (EField "ParameterOffset");
-    UAdv (EField "ParameterOffset");
-    UGuard SD (EField "ParameterCount");
-    UBytes SD "Trans_Parameters" (EField "ParameterCount");
-    UAdv (EField "ParameterCount");
-    UGuard SD (EField "DataOffset");
-    UBytes SD "Pad2" (EField "DataOffset");
-    UAdv (EField "DataOffset");
-    UGuard SD (EField "DataCount");
-    UBytes SD "Trans_Data" (EField "DataCount");
-    UAdv (EField "DataCount")
-  ];
-  cd_opaque := ["Unmarshal: c.Setup = make([]types.USHORT, c.SetupCount)"; "Unmarshal: for i := 0; i < int(c.SetupCount); i++ { c.Setup[i] = types.USHORT(binary.BigEndian.Uint16(rawParametersContent[offset : offset+2])) offset += 2 }"]
-|}.
-Definition expected_cmd_WriteAndCloseRequest : cmd_desc := {|
-  cd_name := "WriteAndCloseRequest";
-  cd_code := 44;
-  cd_andx := false;
-  cd_request := true;
-  cd_params_first := true;
-  cd_empty := EmptyBoth;
-  cd_decl := [("FID", TInt 2); ("CountOfBytesToWrite", TInt 2); ("WriteOffsetInBytes", TInt 4); ("LastWriteTime", TNamed "FILETIME"); ("Reserved", TFixedArray 3 (TInt 4)); ("Pad", TInt 1); ("Data", TBytes)];
-  cd_marshal := [
-    MInt SD "Pad" 1 LE;
-    MBytes SD "Data";
-    MDerive "CountOfBytesToWrite" "Data";
-    MInt SP "FID" 2 BE;
-    MInt SP "CountOfBytesToWrite" 2 BE;
-    MInt SP "WriteOffsetInBytes" 4 BE;
-    MNested SP "LastWriteTime" (TNamed "FILETIME") "";
-    MIf (MCArrNonZero "Reserved") (MIntArray SP "Reserved" 4 BE)
-  ];
-  cd_unmarshal := [
-    UReset SP;
-    UGuard SP (EConst 2);
-    UInt SP "FID" 2 BE (EConst 2);
-    UAdv (EConst 2);
-    UGuard SP (EConst 2);
-    UInt SP "CountOfBytesToWrite" 2 BE (EConst 2);
-    UAdv (EConst 2);
-    UGuard SP (EConst 4);
-    UInt SP "WriteOffsetInBytes" 4 BE (EConst 4);
-    UAdv (EConst 4);
-    UGuard SP (EConst 8);
-    UNested SP "LastWriteTime" (TNamed "FILETIME") ERest;
-    UAdv ERead;
-    UIf (UCWcEq 12) (UGuard SP (EConst 12));
-    UOpaque "c.Reserved = [3]types.ULONG{ types.ULONG(binary.BigEndian.Uint32(rawParametersContent[offset : offset+4])), types.ULONG(binary.BigEndian.Uint32(rawParametersContent[offset+4 : offset+8])), types.ULONG(binary.BigEndian.Uint32(rawParametersContent[offset+8 : offset+12])), }";
-    UIf (UCWcEq 12) (UAdv (EConst 12));
-    UReset SD;
-    UGuard SD (EConst 1);
-    UInt SD "Pad" 1 LE (EConst 1);
-    UAdv (EConst 1);
-    UGuard SD (EField "CountOfBytesToWrite");
-    UBytes SD "Data" (EField "CountOfBytesToWrite")
-  ];
-  cd_opaque := ["Unmarshal: c.Reserved = [3]types.ULONG{ types.ULONG(binary.BigEndian.Uint32(rawParametersContent[offset : offset+4])), types.ULONG(binary.BigEndian.Uint32(rawParametersContent[offset+4 : offset+8])), types.ULONG(binary.BigEndian.Uint32(rawParametersContent[offset+8 : offset+12])), }"]
-|}.
 Definition expected_cmd_WriteRequest : cmd_desc := {|
   cd_name := "WriteRequest";
   cd_code := 11;
@@ -557,7 +414,5 @@ Definition expected_untranslated : list cmd_desc := [
   expected_cmd_SessionSetupAndxRequest;
   expected_cmd_SessionSetupAndxResponse;
   expected_cmd_SetInformationRequest;
-  expected_cmd_TransactionRequest;
-  expected_cmd_WriteAndCloseRequest;
   expected_cmd_WriteRequest
 ].
